@@ -39,6 +39,8 @@ def describe_deep(fn, op_or_place, depth=4):
             return "static:" + c["static"].rsplit("::", 1)[-1]
         if "ch" in c:
             return "const %r" % c["ch"]
+        if c.get("v") is None and "def" in c:
+            return "const:%s%s" % (c["def"].rsplit("::", 1)[-1], proj)
         return "const %s%s" % (c.get("v"), proj)
     if k == "multi":
         # user variable: use its name if it has one
